@@ -70,7 +70,7 @@ Proof.
   assert (Hen1: nth_error (ents (w_st w')) e = Some (clr en side)) by (rewrite SA; eapply nth_list_upd_eq; eauto).
   assert (HI: Inv g w').
   { unfold Inv. apply (InvP_ext (real_evl w)); [intros sd0; unfold real_evl; rewrite Hprov; reflexivity|].
-    apply (inv_clear (real_evl w) g w w' e en (clr en side) side I He Hn Hr).
+    apply (inv_clear (real_evl w) g w w' e en (clr en side) side I He Hn (fun _ => Hr)).
     - (* justification from "does not need sync" *)
       intros k ob cs Ho Hob Hpd Hfr Hd Hg.
       rewrite (needs_sync_eq (real_evl w) g w e en EO) in Hns. rewrite Hc, Ho in Hns. cbn [tstr ostr_k andb] in Hns.
@@ -108,6 +108,30 @@ Proof.
 Qed.
 
 (* finished(side, sync) on an entry whose fields need no further change *)
+Lemma finished_pres0 g w e en side w' :
+  Inv g w -> (2 <= e)%nat -> nth_error (ents (w_st w)) e = Some en -> (is_discarded (e_ign en) = false -> ReadyAll (real_evl w) w e en) ->
+  (forall k ob cs, s_oid (gs en side) = Some (ostr_k k) -> obj_at w side k = Some ob -> pd (real_evl w) side k = false ->
+     freshP (gs en side) ob -> is_discarded (e_ign en) = false -> g_get k (g_of g side) = Some cs ->
+     s_oid (gs en (negb side)) <> None /\ ProvModel.o_exists ob = true /\ s_hash (gs en side) = s_shash (gs en side)) ->
+  AlgoModel.finished w e side = ROk w' ->
+  Inv g w' /\ (forall x sd0, x <> e -> getx w' x sd0 = getx w x sd0) /\ (forall sd0, x_tfile (getx w' e sd0) = None) /\
+  (forall sd0, prov_of w' sd0 = prov_of w sd0) /\
+  exists en', nth_error (ents (w_st w')) e = Some en' /\ same_but_prio (clr en side) en'.
+Proof.
+  intros I He Hn Hr Hjust H.
+  pose proof (i_ents _ _ _ I e en He Hn) as EO.
+  assert (HfL: s_force (e_l en) = false) by apply (ent_force (real_evl w) g w e en EO false).
+  assert (HfR: s_force (e_r en) = false) by apply (ent_force (real_evl w) g w e en EO true).
+  destruct (finished_w w e side en (i_cfg _ _ _ I) (i_tape _ _ _ I) Hn (i_csb _ _ _ I)
+              (ent_chg_oid (real_evl w) g w e en EO (negb side)) HfL HfR)
+    as (w2 & en' & H2 & Wcfg & Hprov & Hen' & Ssbp & Hlen & Hoth & Hcs & Hmem & Hnow & Hlast & Htape & HJ & Hx & Hxe).
+  rewrite H2 in H. injection H as <-.
+  split; [|split; [exact Hx|split; [intros sd0; rewrite Hxe; reflexivity|split; [exact Hprov|exists en'; split; assumption]]]].
+  unfold Inv. apply (InvP_ext (real_evl w)); [intros sd0; unfold real_evl; rewrite Hprov; reflexivity|].
+  apply (inv_clear (real_evl w) g w w2 e en en' side I He Hn Hr Hjust Wcfg Hprov Hen' Ssbp Hlen Hoth Hcs Hmem Hnow Hlast Htape HJ Hx).
+  intros sd0. rewrite Hxe. reflexivity.
+Qed.
+
 Lemma finished_pres g w e en side w' :
   SCtx g w e en ->
   (forall k ob cs, s_oid (gs en side) = Some (ostr_k k) -> obj_at w side k = Some ob -> pd (real_evl w) side k = false ->
@@ -117,17 +141,7 @@ Lemma finished_pres g w e en side w' :
   Inv g w' /\ (forall x sd0, x <> e -> getx w' x sd0 = getx w x sd0) /\ (forall sd0, x_tfile (getx w' e sd0) = None).
 Proof.
   intros [I He Hn Hr] Hjust H.
-  pose proof (i_ents _ _ _ I e en He Hn) as EO.
-  assert (HfL: s_force (e_l en) = false) by apply (ent_force (real_evl w) g w e en EO false).
-  assert (HfR: s_force (e_r en) = false) by apply (ent_force (real_evl w) g w e en EO true).
-  destruct (finished_w w e side en (i_cfg _ _ _ I) (i_tape _ _ _ I) Hn (i_csb _ _ _ I)
-              (ent_chg_oid (real_evl w) g w e en EO (negb side)) HfL HfR)
-    as (w2 & en' & H2 & Wcfg & Hprov & Hen' & Ssbp & Hlen & Hoth & Hcs & Hmem & Hnow & Hlast & Htape & HJ & Hx & Hxe).
-  rewrite H2 in H. injection H as <-.
-  split; [|split; [exact Hx|intros sd0; rewrite Hxe; reflexivity]].
-  unfold Inv. apply (InvP_ext (real_evl w)); [intros sd0; unfold real_evl; rewrite Hprov; reflexivity|].
-  apply (inv_clear (real_evl w) g w w2 e en en' side I He Hn Hr Hjust Wcfg Hprov Hen' Ssbp Hlen Hoth Hcs Hmem Hnow Hlast Htape HJ Hx).
-  intros sd0. rewrite Hxe. reflexivity.
+  destruct (finished_pres0 g w e en side w' I He Hn (fun _ => Hr) Hjust H) as (A & B & C & _). auto.
 Qed.
 
 (* ------------------------------------------------------------------ a provider call on side t plus changes of entry e *)
@@ -1165,7 +1179,7 @@ Proof.
     apply ostr_k_inj in Hk1. subst k1. assert (ob1 = ob) by congruence. subst ob1.
     destruct FO as [f1 f2 f3 f4 f5 f6 f7 f8 f10 f9]. rewrite Hex, Hh, Hp.
     split; [exact f1|]. split.
-    { destruct f2 as [X|[X|X]]; [left; exact X|right; left; rewrite Hlg; pose proof (prog_maxchg _ _ _ _ _ P); lia|right; right].
+    { intros Hd. destruct (f2 Hd) as [X|[X|X]]; [left; exact X|right; left; rewrite Hlg; pose proof (prog_maxchg _ _ _ _ _ P); lia|right; right].
       unfold freshP in *. rewrite Hex, Hh, Hp. exact X. }
     split; [exact f3|]. split.
     { intros Hd cs Hcs. destruct (f8 Hd cs Hcs) as (P1 & _ & _ & P4 & _). destruct (f10 Hd cs Hcs) as (_ & P6). auto. }
@@ -1326,7 +1340,7 @@ Proof.
     - auto.
     - intros k0 ob0 Ho0 Hob0. assert (k0 = k) by (apply ostr_k_inj; congruence). subst k0. assert (ob0 = ob) by congruence. subst ob0.
       unfold en'. rewrite gs_ss_same. cbn [w_ex s_ex s_hash s_path].
-      split; [intros X; discriminate|]. split; [right; right; unfold freshP; rewrite Hdead; reflexivity|]. split; [apply (fo_path _ _ _ _ _ _ _ _ FO)|]. split.
+      split; [intros X; discriminate|]. split; [intros _; right; right; unfold freshP; rewrite Hdead; reflexivity|]. split; [apply (fo_path _ _ _ _ _ _ _ _ FO)|]. split.
       + intros Hd cs Hcs. destruct (fo_owner _ _ _ _ _ _ _ _ FO Hd cs Hcs) as (P1 & _ & _ & P4 & _). destruct (fo_owner2 _ _ _ _ _ _ _ _ FO Hd cs Hcs) as (_ & P6). auto.
       + intros Hd Hcs. destruct (fo_mirror _ _ _ _ _ _ _ _ FO Hd Hcs) as (Ml & _). congruence.
     - intros Hno. congruence. }
